@@ -198,8 +198,8 @@ def histories(ctx):
                 a = r.choice([0, 0, 6, 6, 7, a])
                 if label == 'interactive' and _t == 0 and r.random() < 0.5:
                     a = 6          # the first thing done in front of a door: ACTUATE
-                if a not in desc['actions']:
-                    a = r.choice(desc['actions'])
+                if a not in desc['actions'] and r.random() < 0.7:
+                    a = r.choice(desc['actions'])        # (sometimes kept: an action outside the action space either raises or obeys the same purity rules)
                 # observation of the current state: pure, no shared containers, repeatable
                 before = wire.cstate(s)
                 case = {'env': label, 'state': gen.show_state(before), 'wire_state': before, 'history': list(hist)}
